@@ -137,3 +137,18 @@ pub fn hashset_into_vec(s: HashSet<Uuid>) -> (r: Vec<Uuid>)
 /// a Vec of 40-byte elements never holds more than isize::MAX / 40 of them (std: allocations are at most isize::MAX bytes)
 pub axiom fn axiom_version_list_len(v: &Vec<(Uuid, Uuid, u64)>)
     ensures v@.len() < usize::MAX;
+// ---- rule R32i: `format!("v-{}-", id.as_simple())`: the literal, the Display text of the value, the literal (what format! means for this shape).
+// ---- The simple (32 hex digits) text of a version id has a fixed width, so "v-" + text(p) + "-" is a prefix of v-P'-C exactly if P' == P (TRUSTED)
+pub struct UuidSimple { pub u: Uuid }
+impl Uuid {
+    pub fn as_simple(&self) -> (r: UuidSimple) ensures r.u == *self { UuidSimple { u: *self } }
+}
+pub uninterp spec fn simple_text(u: Uuid) -> Seq<char>;
+#[verifier::external_body]
+pub fn fmt_infixed(pre: &str, x: &UuidSimple, suf: &str) -> (r: String)
+    ensures r@ == pre@ + simple_text(x.u) + suf@
+{ unimplemented!() }
+pub axiom fn axiom_version_prefix(p: Uuid, p2: Uuid, c: Uuid)
+    ensures ("v-"@ + simple_text(p) + "-"@).is_prefix_of(vname(p2, c)) <==> p == p2;
+/// the bucket holds no foreign object whose name starts like a snapshot's: hypothesis of "no snapshot is reported only if there is none"
+pub open spec fn own_s_names(s: Store) -> bool { forall|n: Seq<char>| #![trigger s.dom().contains(n)] s.dom().contains(n) && "s-"@.is_prefix_of(n) ==> exists|v: Uuid| n == #[trigger] sname(v) }
